@@ -52,8 +52,8 @@ LEVEL = {
                'proved by induction in Verus for all ciphers with D.E = id, all block sizes and lengths; every backend / core function of '
                'the nine crates is proved equal to its spec step (code = spec), so the block-level round trip follows for all inputs. '
                'Length preservation is part of every contract.',
-               'Bounded only: the six cts decrypt closures (harness vs NIST reference, b in {2,3}, L <= 3b+1), buffered-CFB data functions, '
-               'and the composition with the padded / one-shot / stream front-ends of the cipher crate (driver harnesses).'),
+               'Bounded only: buffered-CFB data functions, the cts *_b2b defaults, the CTS round trip as such (each direction is proved against '
+               'NIST separately), and the composition with the padded / one-shot / stream front-ends of the cipher crate (driver harnesses).'),
     'C02': _lv('Every CBC/PCBC/IGE backend method, state import/export and plumbing function of /repo is extracted token-exactly on each run '
                'and verified by Verus against the recurrence transcribed from the property (uninterpreted E/D, any block size, any parallel '
                'width, both aliasing cases, arbitrary ciphertext). Unbounded proof of the repo functions.',
@@ -67,11 +67,13 @@ LEVEL = {
                '(field = last / first w/8 bytes read BE / LE, replaced by (field + i) mod 2^w, other bytes unchanged) for every block size '
                'that is a multiple of the counter size, every IV and every position.',
                'std byte-order conversions are assumed with their mathematical definition (digits base 256).'),
-    'C05': _lv('The bulk helpers (cbc_enc, cbc_dec, ecb_enc, ecb_dec incl. their own parallel chunking), the twelve length gates and all six '
-               'ENCRYPT closures are verified by Verus against a transcription of NIST SP 800-38A Addendum CS1/CS2/CS3 for every block size, '
-               'every length >= b (every residue, one block, whole blocks), both aliasing cases.',
-               'The six DECRYPT closures and the *_b2b defaults are not yet under a Verus contract: checked by harnesses against an executable '
-               'NIST reference (b in {2,3}, every L <= 3b+1, widths 2, in place and buffer to buffer) -- bounded.'),
+    'C05': _lv('The bulk helpers (cbc_enc, cbc_dec, ecb_enc, ecb_dec incl. their own parallel chunking), the twelve length gates and all '
+               'twelve closures (encrypt and decrypt, CBC and ECB, CS1/CS2/CS3) are verified by Verus against a transcription of NIST SP '
+               '800-38A Addendum for every block size, every length >= b (every residue, one block, whole blocks), both aliasing cases, '
+               'any parallel width.',
+               'Only the two *_b2b default methods (pattern closures + Result::and_then) are outside Verus: checked by the cts harnesses '
+               '(b in {2,3}, every L <= 3b+1) -- bounded. decryption-inverts-encryption for CTS is stated by the harness round trips, the '
+               'Verus contracts state each direction against NIST separately.'),
     'C06': _lv('BeltCtrCore init (s = le128(E(IV))), gen_ks_block (pre-increment mod 2^128, E(le128(s))), the parallel body, seek and '
                'remaining are verified by Verus for all E, IVs, positions and widths, including wrap of s across 2^128.'),
     'C07': _lv('The transducer contract is stated once on the shim traits; every single-block and parallel backend method meets it '
@@ -95,11 +97,11 @@ LEVEL = {
                'check_remaining / try_seek are dependency code. Known finding F2 (seek past the limit wraps) is in the cipher crate, recorded.'),
     'C12': _lv('Every contract over InOut / InOutBuf is proved with the aliasing flag universally quantified and no assumption on the initial '
                'output contents; right-hand sides mention only the input at entry. Includes the cts encrypt closures and helpers.',
-               'cts decrypt closures: harness (in place and buffer to buffer, arbitrary initial output) -- bounded.'),
+               'buffered CFB and the cts *_b2b defaults: harness (in place and buffer to buffer, arbitrary initial output) -- bounded.'),
     'C13': _lv('Length gates of all six cts variants: Err exactly when shorter than one block, with the frame clause (buffer untouched). Every '
                'function verified by Verus is free of panics under call-site-derived preconditions (index bounds, overflow, unwrap, '
                'debug_assert rewritten to an obligation).',
-               '*_b2b defaults (closure patterns), cts decrypt closures, buffered CFB: harness only (bounded). Key/IV slice lengths and padded '
+               '*_b2b defaults (closure patterns), buffered CFB: harness only (bounded). Key/IV slice lengths and padded '
                'decryption are decided in crypto-common / cipher (assumed).'),
     'C14': _lv('Front-ends are equal because they are proved equal to one shared spec function: OFB block step = keystream step (lemma), '
                'cts::cbc_enc/cbc_dec and the cbc crate against the same run(cbc step), CS1/CS2/CS3 on whole blocks (lemmas), buffered CFB on a '
